@@ -20,7 +20,7 @@ type siteJSON struct {
 }
 
 func writeEvidence(tier string, seed uint64, digest string, info map[string]interface{}, ii instrInfo, recs []Record, cov *covRec,
-	det detResult, buildS, simWall, wall float64, nviol, workers int) {
+	det detResult, buildS, simWall, wall float64, nviol, workers, processes int) {
 	var sj siteJSON
 	if b, err := os.ReadFile(filepath.Join(scratch, "sites.json")); err == nil {
 		json.Unmarshal(b, &sj)
@@ -36,11 +36,16 @@ func writeEvidence(tier string, seed uint64, digest string, info map[string]inte
 	noisy, expP, slow, ydiff, missing, trunc := 0, 0, 0, 0, 0, 0
 	preempted := 0
 	maxTasks := 0
+	coldFirst := 0
 	for _, r := range recs {
 		yields += r.Yields
 		switches += r.Switches
 		hotsw += r.HotSwitches
 		for k, v := range r.Faults {
+			if k == "cold_first" {
+				coldFirst += v
+				continue
+			}
 			faults[k] += v
 		}
 		byMode[r.Mode]++
@@ -178,36 +183,39 @@ func writeEvidence(tier string, seed uint64, digest string, info map[string]inte
 			"rule": "one evaluation = one simulated run: a seeded plan (2-" + fmt.Sprint(maxTasks) + " tasks x operation lists from the tree-following catalogue, sharing mode, fault list) executed under the " +
 				"seeded scheduler on the instrumented -race build, compared with three sequential baselines; focused runs walk the whole catalogue in registry order, swarm runs draw 1-3 families; " +
 				"non-trivial = at least 2 tasks and at least one pre-emption in the middle of a library operation; distinct = distinct digests of the executed schedule (sequence of (task, yields) segments)",
-			"samples":                          samples,
-			"runs_with_mid_operation_preempt":  preempted,
-			"runs_by_mode":                     byMode,
-			"runs_by_kind":                     byKind,
-			"runs_by_preemption_target_k":      byK,
-			"runs_by_task_count":               byTasks,
-			"max_tasks_in_a_run":               maxTasks,
-			"family_x_mode_runs":               famMode,
-			"families_never_exercised":         zeroFams,
-			"yields":                           yields,
-			"context_switches":                 switches,
-			"context_switches_at_hot_sites":    hotsw,
-			"fault_kinds_injected":             faults,
-			"fault_kinds_not_available":        []string{"message loss/duplication/reordering", "partition", "crash-restart with durable state", "clock skew", "disk faults", "failing allocations/syscalls"},
-			"fault_kinds_not_available_why":    "the library has no transport, storage, clock or allocator seam: decoders take complete byte slices, encoders write to in-memory buffers",
-			"sites_total":                      nsites,
-			"sites_executed_in_baseline":       base,
-			"sites_executed_in_simulation":     exec,
-			"sites_covisited_by_2_tasks":       co,
-			"sites_preempted_at":               pre,
-			"hot_sites_total":                  hot,
-			"hot_sites_executed":               hotExec,
-			"hot_sites_preempted_at":           hotPre,
-			"files_with_most_unexecuted_sites": zeros,
-			"expected_panics_in_baseline":      expP,
-			"noisy_ops_excluded":               noisy,
-			"too_slow_ops_dropped":             slow,
-			"ops_missing_on_this_tree":         missing,
-			"ops_with_yield_count_diff":        ydiff,
-			"runs_with_truncated_trace":        trunc,
+			"samples":                         samples,
+			"runs_with_mid_operation_preempt": preempted,
+			"runs_simulated_before_any_sequential_baseline": coldFirst,
+			"worker_processes_each_starting_cold":           processes,
+			"free_running_mode":                             freeRun,
+			"runs_by_mode":                                  byMode,
+			"runs_by_kind":                                  byKind,
+			"runs_by_preemption_target_k":                   byK,
+			"runs_by_task_count":                            byTasks,
+			"max_tasks_in_a_run":                            maxTasks,
+			"family_x_mode_runs":                            famMode,
+			"families_never_exercised":                      zeroFams,
+			"yields":                                        yields,
+			"context_switches":                              switches,
+			"context_switches_at_hot_sites":                 hotsw,
+			"fault_kinds_injected":                          faults,
+			"fault_kinds_not_available":                     []string{"message loss/duplication/reordering", "partition", "crash-restart with durable state", "clock skew", "disk faults", "failing allocations/syscalls"},
+			"fault_kinds_not_available_why":                 "the library has no transport, storage, clock or allocator seam: decoders take complete byte slices, encoders write to in-memory buffers",
+			"sites_total":                                   nsites,
+			"sites_executed_in_baseline":                    base,
+			"sites_executed_in_simulation":                  exec,
+			"sites_covisited_by_2_tasks":                    co,
+			"sites_preempted_at":                            pre,
+			"hot_sites_total":                               hot,
+			"hot_sites_executed":                            hotExec,
+			"hot_sites_preempted_at":                        hotPre,
+			"files_with_most_unexecuted_sites":              zeros,
+			"expected_panics_in_baseline":                   expP,
+			"noisy_ops_excluded":                            noisy,
+			"too_slow_ops_dropped":                          slow,
+			"ops_missing_on_this_tree":                      missing,
+			"ops_with_yield_count_diff":                     ydiff,
+			"runs_with_truncated_trace":                     trunc,
 			"determinism_self_test": map[string]interface{}{
 				"seeds": det.seeds, "fresh_process_executions": det.executions, "gomaxprocs": []int{1, 4, 16}, "result": detNote,
 				"compared": "schedule digest, yield count, context switches, result digest of the main run vs. each fresh process",
